@@ -514,6 +514,18 @@ def build():
                                lambda c: z3.Implies(z3.And(z3.Not(changed_in(c)), z3.Not(changed_out(c)), z3.Not(S.bval(c.p.def_changed)), z3.Not(S.bval(c.p.use_changed))),
                                                     z3.And(z3.Not(c.g.rebound_full), z3.Not(c.g.rebound_implicit), z3.Not(c.g.requeued))))],
                      modifies=lambda c: {'list': (lambda a: a >= c.old.next)}))
+    # ---- rerun_analyze_reachable_symbols (prefix up to its fold): the implicit definitions found by the state analysis are folded into the statement's CURRENT OUT set ----
+    def rr_start(ex, st, node):
+        cx = ex.ctx(st)
+        status = z3.Select(cx.cur.val(cx.cur.attr(st.env['frame'].t, 'stmt_id_to_status')), st.env['stmt_id'].t)
+        ex.oblige(st, 're-run:the-fold-of-the-implicit-definitions-starts-from-the-OUT-set-the-statement-has-(its-own-kill-and-gen-are-kept)',
+                  cx.cur.dom(st.env['current_bits'].t) == cx.cur.dom(cx.cur.attr(status, 'out_symbol_bits')), kind='lemma')
+        ex.oblige(st, 're-run:the-OUT-set-to-compare-with-afterwards-is-the-one-before-the-fold',
+                  cx.cur.dom(st.env['old_out_symbol_bits'].t) == cx.cur.dom(cx.cur.attr(status, 'out_symbol_bits')), kind='lemma')
+    reg.add(Contract(PS, 'P2PrelimSemanticAnalysis.rerun_analyze_reachable_symbols', dict(self=P2, stmt_id=Int, stmt=Obj('GIRRow'), frame=FR, result_flag=Any), returns=Any,
+                     stop_before='for defined_symbol_index in all_defined_symbols', ghost_hooks={'before_stmt:for defined_symbol_index in all_defined_symbols': rr_start},
+                     requires=[('the-statement-has-a-status', lambda c: z3.Select(c.old.dom(c.old.attr(c.p.frame, 'stmt_id_to_status')), c.p.stmt_id))],
+                     modifies=lambda c: {}))
     return reg
 
 
@@ -561,7 +573,7 @@ ASSUMPTIONS = [
     'heap shape preconditions: the per-symbol definition sets, all_symbol_defs, the bit-position tables and the IN/OUT sets of the statuses are pairwise different objects',
     'Resolver.resolve_symbol_source_decl, Loader.assign_new_unique_negative_id are opaque (scope resolution is C05); add_status_with_symbol_id_sync: only the temporaries clause is '
     'stated, the ids of named variables depend on the resolver',
-    'rerun_analyze_reachable_symbols, get_used_symbol_indexes, update_used_symbols_to_symbol_graph, adjust_defined_symbols_and_init_bit_vector are not under contract',
+    'rerun_analyze_reachable_symbols is under contract only up to its fold loop (it starts from the current OUT set); the fold itself, get_used_symbol_indexes, update_used_symbols_to_symbol_graph, adjust_defined_symbols_and_init_bit_vector are not under contract',
 ]
 EXPLANATION = ('Deductive proof on the real code of the reaching-definition equations: BitVectorManager kill/gen are set difference/union, update_current_symbol_bit is '
                'OUT = GEN U (IN - KILL) and keeps the definition tables consistent, analyze_reachable_symbols computes IN as the union of OUT over exactly the selected predecessors '
